@@ -21,7 +21,8 @@ import (
 // what the backend returns for the same call at that point).
 
 type refVersion struct {
-	seq     int64
+	seq     int64 // when the backend took this version on
+	callEnd int64 // when the cache call that produced it returned (0 = still in progress)
 	present bool
 	ent     Ent
 }
@@ -37,10 +38,18 @@ type refBackend struct {
 	errPct  int
 	stats   *Stats
 	calls   int
+	pendIdx []pendRef // versions created by the cache call in progress (single writer)
+	pendFLn int
+}
+
+type pendRef struct {
+	idx uint64
+	pos int
 }
 
 type flVersion struct {
 	seq         int64
+	callEnd     int64
 	first, last uint64
 }
 
@@ -54,11 +63,31 @@ func (b *refBackend) recompute() {
 			b.last = i
 		}
 	}
-	b.flHist = append(b.flHist, flVersion{b.sim.Tick(), b.first, b.last})
+	b.flHist = append(b.flHist, flVersion{seq: b.sim.Tick(), first: b.first, last: b.last})
+	b.pendFLn++
+}
+
+// endCall stamps the versions created by the writer's call that has just returned: until
+// that instant a concurrent reader may still legitimately see the previous version (the
+// write as a whole is linearised somewhere inside the call).
+func (b *refBackend) endCall() {
+	t := b.sim.Tick()
+	for _, k := range b.pendIdx {
+		vs := b.hist[k.idx]
+		vs[k.pos].callEnd = t
+	}
+	b.pendIdx = nil
+	for i := len(b.flHist) - b.pendFLn; i < len(b.flHist); i++ {
+		if i >= 0 {
+			b.flHist[i].callEnd = t
+		}
+	}
+	b.pendFLn = 0
 }
 
 func (b *refBackend) setVersion(i uint64, present bool, e Ent) {
 	b.hist[i] = append(b.hist[i], refVersion{seq: b.sim.Tick(), present: present, ent: e})
+	b.pendIdx = append(b.pendIdx, pendRef{i, len(b.hist[i]) - 1})
 }
 
 // fail decides whether this call fails, and whether before or after taking effect.
@@ -150,24 +179,25 @@ func (b *refBackend) DeleteRange(min, max uint64) error {
 // instant in [from, to].
 func (b *refBackend) possible(i uint64, from, to int64, present bool, e Ent) bool {
 	vs := b.hist[i]
-	// the version in force at `from`
-	cur := refVersion{present: false}
-	k := 0
-	for k < len(vs) && vs[k].seq <= from {
-		cur = vs[k]
-		k++
-	}
-	match := func(v refVersion) bool {
-		if v.present != present {
+	match := func(p bool, en Ent) bool {
+		if p != present {
 			return false
 		}
-		return !present || v.ent.same(e)
+		return !present || en.same(e)
 	}
-	if match(cur) {
+	// the implicit initial version: absent, until the call that first wrote the index returned
+	if match(false, Ent{}) && (len(vs) == 0 || vs[0].callEnd == 0 || vs[0].callEnd >= from) {
 		return true
 	}
-	for ; k < len(vs) && vs[k].seq <= to; k++ {
-		if match(vs[k]) {
+	for k := range vs {
+		if vs[k].seq > to {
+			break
+		}
+		// version k is visible from vs[k].seq until the call that replaced it has returned
+		if k+1 < len(vs) && vs[k+1].callEnd != 0 && vs[k+1].callEnd < from {
+			continue
+		}
+		if match(vs[k].present, vs[k].ent) {
 			return true
 		}
 	}
@@ -175,23 +205,24 @@ func (b *refBackend) possible(i uint64, from, to int64, present bool, e Ent) boo
 }
 
 func (b *refBackend) possibleFL(from, to int64, first bool, val uint64) bool {
-	cur := flVersion{}
-	k := 0
-	for k < len(b.flHist) && b.flHist[k].seq <= from {
-		cur = b.flHist[k]
-		k++
-	}
 	get := func(v flVersion) uint64 {
 		if first {
 			return v.first
 		}
 		return v.last
 	}
-	if get(cur) == val {
+	vs := b.flHist
+	if val == 0 && (len(vs) == 0 || vs[0].callEnd == 0 || vs[0].callEnd >= from) {
 		return true
 	}
-	for ; k < len(b.flHist) && b.flHist[k].seq <= to; k++ {
-		if get(b.flHist[k]) == val {
+	for k := range vs {
+		if vs[k].seq > to {
+			break
+		}
+		if k+1 < len(vs) && vs[k+1].callEnd != 0 && vs[k+1].callEnd < from {
+			continue
+		}
+		if get(vs[k]) == val {
 			return true
 		}
 	}
@@ -339,6 +370,7 @@ func runC19(t *testing.T, spec RunSpec) (res RunResult) {
 						ls = append(ls, &raft.Log{Index: start + uint64(j), Term: term, Type: raft.LogCommand, Data: []byte(fmt.Sprintf("p%d", payload))})
 					}
 					err := cache.StoreLogs(ls)
+					b.endCall()
 					stats.Calls["StoreLogs"]++
 					note("StoreLogs [%d..%d] term=%d err=%v", start, start+uint64(n)-1, term, err)
 				case k < 6:
@@ -359,6 +391,7 @@ func runC19(t *testing.T, spec RunSpec) (res RunResult) {
 						min, max = 0, maxIdx+5
 					}
 					err := cache.DeleteRange(min, max)
+					b.endCall()
 					stats.Calls["DeleteRange"]++
 					note("DeleteRange [%d..%d] err=%v", min, max, err)
 				case k < 7:
